@@ -103,6 +103,8 @@ prop("C08", "fault_enumeration",
      "(refused connection; body cut after c bytes with c drawn from {uniform, 0, all, all-1, first 8}; early EOF; stall + request timeout), retry budget 0..3, retry delay {0,1,30} s of virtual time. "
      "After a body-level error the stream is polled up to three more times: it must not deliver anything but further errors or the end. Oracle over the recorded history: items are a prefix of the requested ranges' bytes in order, then at most one error, then nothing; a run with f <= R failures completes, f > R or an early EOF yields an error; "
      "every (re)request's Range starts at the first byte not yet delivered and ends at the run's end; retry delays elapse in virtual time; the run finishes within the step budget. "
+     "One run in fifty is a whole clone of the C02/C03 family (bita clone at the syscall seam or the library flow, seeds / in place) over HTTP against a server whose transient failures (refused connection, body cut after a drawn count) come in bursts of at most --http-retry-count (1..3), with --http-retry-delay in {0,1,10,3600} s: the clone must succeed with output == source, every write one source chunk at its offset and none twice, "
+     "and the chunk-data requests in the server's log must be exactly: each expected run of adjacent missing chunks once, each re-request from the first byte the server had not delivered to the run's end, no earlier than the retry delay after the failed request. "
      "Non-trivial: a retry was taken or at least two ranges; distinct: trace hash + (ranges, failures, fatal, single).",
      {"quick": {"runs": 160000, "max_secs": 150}, "thorough": {"runs": 4000000, "max_secs": 1200}},
      ["cut offsets are drawn per request (biased to the edges), not enumerated for every byte", "zero-length ranges belong to C15, no conforming archive has them"])
